@@ -192,7 +192,7 @@ impl Part for DropPart {
             .boxed()
     }
     fn cases(&self, tier: Tier) -> u64 {
-        tier.pick(1_500, 8_000)
+        tier.pick(6_000, 8_000)
     }
     fn exec(&self, c: &C04Case, out: &mut CaseOut) -> Result<(), Fail> {
         exec(c, out)
